@@ -27,6 +27,11 @@ var commonAssumptions = []string{
 }
 
 var props = map[string]propCfg{
+	"C19": {
+		BinRace: true, QuickBatches: 5, ThoroughBatches: 40, Parallel: 5, Bins: []string{"proxy"}, Level: "exploration", Floor: 20,
+		Rule:        "(a) sessions against the real proxy binary (race detector, built from the current tree) on TCP loopback: the harness is the upstream server, the client and the HTTP poller; 1-3 sequential connections per proxy process; client->server and server->client streams (up to 64 kB per session) made of valid frames, CRC-valid frames with malformed content (short MSM, oversize masks), hostile mixes, random bytes, and text/frames spelling HTML (<script>, </div>, <img ...>); chunk sizes {1,17,512,4096,random} with 0-2 ms gaps. Oracle: upstream-received = client-sent and client-received = server-sent per connection; the process is alive after every session (a death is reported with its panic/race text; a silent stall is judged from the SIGQUIT goroutine dump, otherwise inconclusive); every /status/report body is matched against the pinned page template and its five traffic-derived parts must contain no raw '<' or '>'; the messages listed (parsed back from their hex dumps) must be at most 20 and a contiguous run, in order, of the same build's sequential framing of the bytes sent so far. (b) in process: ReportFeed.Status over a 20-message queue and client/server buffers filled from such traffic, same checks plus list length. Non-trivial: every session / Status call (all carry mixed traffic). Distinct by hash of the case.",
+		Assumptions: commonAssumptions,
+	},
 	"C16": {
 		BinRace: true, QuickBatches: 8, ThoroughBatches: 48, Parallel: 8, Bins: []string{"rtcmlogger"}, Level: "exploration", Floor: 30,
 		Rule:        "the real rtcmlogger binary, built from the current tree with the race detector and the hook overlay, run as a process in a fresh directory: inputs of 0, 1, 2, 100, 5000, 8095, 8096, 8097, 2*8096-1..+1, 3*8096+1, 40 kB, 100 kB (thorough: up to 2 MB) bytes, random / all-zero / text; stdin as a regular file, a pipe written in chunks of 100 / 1000 / 8096 / random size with 0-3 ms gaps, or a pipe closed immediately after one write; GOMAXPROCS in {1,2,16}; hook profiles: none (natural schedule), a 20 ms delay before the recorder's write call, 5 ms before the log write, 3 ms before the recorder's receive, frequent yields. Oracle: process stdout equals stdin byte for byte, and after exit the date-ordered concatenation of rtcmlogger.*.rtcm in the configured directory equals stdin. Non-trivial: non-empty input with a hook profile or piped stdin. Distinct by hash of the case.",
